@@ -249,7 +249,11 @@ def enumerate_faults(rep, tier, info, world):
               "intact_hex": intact.hex() if len(intact) < 20000 else None, "command": world.scen[scen][3],
               "rc": rc, "output": out, "class": cls, "model": pred}
         if cls not in ("same", "refused"):
-            key = "%s:%s:%s:%s" % (scen.split("-")[0], region, kind, cls)
+            # key: file kind + region class + damage + outcome; the section name stays in the replay
+            # (which sections a seeded sample of body offsets hits must not decide whether a run passes)
+            rclass = re.sub(r"section=\w+", "contents", region).replace("member/", "member-")
+            rp["region"] = region
+            key = "%s:%s:%s:%s" % (scen.split("-")[0], rclass, kind, cls)
             if key not in seen:
                 seen.add(key)
                 rep.violation("a %s file damaged by %s at offset %d (%s) is not refused: %s" % (
